@@ -205,6 +205,7 @@ def request_mutants(xml, typ, signed, deep):
     root = d.root
     yield "destination-foreign", "addressing", d.set_attr(root, "Destination", "https://attacker.example.net/sso").text()
     yield "destination-removed", "addressing", d.set_attr(root, "Destination", None).text()
+    yield "destination-empty", "addressing", d.set_attr(root, "Destination", "").text()
     now = time.time()
     yield "issue-instant-stale", "time", d.set_attr(root, "IssueInstant", clock.iso(now - 3 * 86400)).text()
     yield "issue-instant-future", "time", d.set_attr(root, "IssueInstant", clock.iso(now + 3 * 86400)).text()
@@ -322,7 +323,7 @@ def run_case(case, ctx):
                 viol.append({"key": "C10/request-without-required-attribute", "what": desc + ": %s missing" % attr, "detail": det})
         if getattr(msg, "version", None) != "2.0":
             viol.append({"key": "C10/version-other-than-2.0-accepted", "what": desc, "detail": det})
-        if msg.destination and msg.destination not in own:
+        if msg.destination is not None and msg.destination not in own:      # (present but empty is present)
             key = "C10/foreign-destination-accepted"
             if not own:
                 key = "C10/foreign-destination-accepted-when-no-endpoint-for-binding"
